@@ -155,6 +155,7 @@ pub fn generic_probe_program(names: &[&str]) -> Program {
             msg_attrs: vec![],
             methods,
             entry_points: true,
+            query_err_param: None,
         },
         interfaces: vec![Interface {
             module: "if_a".into(),
@@ -496,8 +497,8 @@ pub fn fragment(rule: &str) -> &'static str {
         "two-instantiate" | "two-migrate" => "More than one instantiation or migration message",
         "missing-new" => "Missing `new` method",
         "new-with-params" => "Parameters not allowed in `new` method",
-        "interface-instantiate" => "`instantiate` is not supported in interfaces",
-        "interface-migrate" => "`migrate` is not supported in interfaces",
+        "interface-instantiate" | "interface-instantiate-after-helper" => "`instantiate` is not supported in interfaces",
+        "interface-migrate" | "interface-migrate-after-helper" => "`migrate` is not supported in interfaces",
         "interface-generics" => "Generics on traits are not supported",
         "interface-no-error" => "Missing `Error` type",
         r if r.starts_with("reply-dup") || r.starts_with("reply-always") => "Duplicated reply handler",
@@ -591,6 +592,7 @@ fn simple_program() -> Program {
             msg_attrs: vec![],
             methods: vec![method("inst", Kind::Instantiate, vec![]), method("run", Kind::Exec, vec![arg("x", Ty::U32)])],
             entry_points: true,
+            query_err_param: None,
         },
         interfaces: vec![],
     }
